@@ -98,6 +98,15 @@ fn alphabet(pool: &[Op], thorough: bool) -> Vec<KStep> {
             out.push(KStep { ks, step: Step { req, fault: Fault::None } });
         }
     }
+    // bulk calls failing part-way: only a prefix written, or everything but the first
+    // document (successes that are not a prefix of the batch); the same request may then be
+    // delivered again and acknowledged (added after the seeded change C07-f)
+    for (ops, del) in [(vec![0usize, 1], false), (vec![3usize, 5], true)] {
+        for fault in [Fault::FailOnly(0), Fault::FailAfter(1)] {
+            let req = if del { Req::MultiDel { ops: ops.clone(), src: 0 } } else { Req::MultiSet { ops: ops.clone(), src: 0 } };
+            out.push(KStep { ks: 0, step: Step { req, fault } });
+        }
+    }
     out.push(KStep { ks: 0, step: Step { req: Req::Purge, fault: Fault::None } });
     // transient storage failures: the request is answered with an error and may be re-delivered
     for i in [0usize, 2, 3, 6] {
